@@ -451,6 +451,14 @@ SUBS = [
         what="payloads the class translator rejects -> single -32700, nothing invoked"),
 ]
 
+from vlib import fuzzdrv  # noqa: E402
+
+SUBS.append(
+    Sub("atheris", oracle_grammar, external=fuzzdrv.campaign("c05", "dispatch"),
+        budget={"quick": 40000, "thorough": 4000000}, shards={"quick": 2, "thorough": 8},
+        time_cap={"quick": 100, "thorough": 1500},
+        what="coverage-guided fuzzing (atheris) of request bodies: error codes and invocation log against the reference model"))
+
 CLAIM = {
     "technique": "property-based testing of error classification: reference model for codes, generated signatures/instance trees/exception classes, each also through ServerProxy",
     "text": "Generated-input search over malformed texts, structurally invalid objects, method names against function tables and generated instance trees, generated signatures vs argument lists, 30 exception classes with generated messages and translator-rejected payloads; expected code, message content and an empty invocation log are computed independently (strict parser, inspect.signature, tree walk). One known finding is excluded by signature.",
